@@ -278,7 +278,8 @@ def run(rep):
     from .. import c16_body as B
     quick = rep.tier == 'quick'
     seed = common.seed()
-    W = 16
+    W = int(os.environ.get('VERIF_WORKERS', '16'))
+    WP = min(W, 8)      # runs that print one JSON line per behaviour: more workers only contend
 
     # --- vacuity: every action of the specification is taken (tiny instance, coverage on)
     res = tlc.run_tlc('CtxStack', _cfg([1], 2, 2, 2, 'KindsTiny', True), workers=2, timeout=300, coverage=True,
@@ -300,11 +301,11 @@ def run(rep):
     if quick:
         bfs = [(2, 2, 2, 'KindsCore', 1), (3, 2, 3, 'KindsTiny', 1)]
     else:
-        bfs = [(3, 2, 3, 'KindsCore', 12), (4, 2, 4, 'KindsTiny', 4), (4, 1, 4, 'KindsSmall', 6)]
+        bfs = [(3, 2, 3, 'KindsCore', 12), (4, 2, 4, 'KindsTiny', 4)]
     pool = []
     for (d, w, n, ks, nparts) in bfs:
         for part in range(nparts):
-            res = tlc.run_tlc('CtxStack', _cfg([1], d, w, n, ks, True, nparts, part, expect=True), workers=8,
+            res = tlc.run_tlc('CtxStack', _cfg([1], d, w, n, ks, True, nparts, part, expect=True), workers=WP,
                               timeout=1500, name='CtxStack_bfs').require_ok('CtxStack BFS %s' % ((d, w, n, ks, part),))
             rep.add_tlc(res)
             cases = [c for c in res.json if isinstance(c, dict) and 'tree' in c]
@@ -320,7 +321,7 @@ def run(rep):
             del res, cases
 
     # --- spec -> code, sampled deeper behaviours over all 24 kinds (TLC -simulate, seeded)
-    nsim = 150 if quick else 4000        # per worker
+    nsim = max(1, (2400 if quick else 48000) // W)        # -simulate num is per worker
     res = tlc.run_tlc('CtxStack', _cfg([1], 4, 3, 8, 'KindsAll', True, expect=True), workers=W, timeout=1500,
                       simulate=dict(num=nsim, depth=500), seed=seed, name='CtxStack_sim').require_ok('CtxStack simulate')
     rep.add_tlc(res)
